@@ -1361,6 +1361,40 @@ def run(chk):
         if not ok:
             chk.violation(r_ijk, "inverse:" + q, "%s splits a global index g into (i, j, k) = (%s, %s, %s); under the natural ordering it is (g mod nx, (g div nx) mod ny, g div (nx ny))%s: the cell it names is not the one the index belongs to" % (q, sy.show_term(got[0]), sy.show_term(got[1]), sy.show_term(got[2]), ", one-based" if base1 else ""), f["file"], f["l"])
 
+    # ---- C13.layeroff: where the node surface of a layer starts in ZCORN
+    r_lo = chk.rule("C13.layeroff", "EclIO::EGrid::getXYZ_layer(layer, box, bottom): the ZCORN offset of the requested node surface is 2 x layer x (4 nx ny) for the top and one surface (4 nx ny) more for the bottom - every layer owns two node surfaces (symbolic term of the local over nx, ny, layer and the bottom flag)", floor=1)
+    gxl = [f for f in gx.fns if f["n"] == "getXYZ_layer" and f.get("body") and f["file"].endswith("EGrid.cpp") and "zcorn_offset" in show(f["body"])] if "gx" in dir() else []
+    if not gxl:
+        gxl = [f for f in chk.facts(["opm/io/eclipse/EGrid.cpp"]).fns if f["n"] == "getXYZ_layer" and f.get("body") and f["file"].endswith("EGrid.cpp") and len(f["params"]) == 3 and "zcorn_offset" in show(f["body"])]
+    if len(gxl) != 1:
+        raise core.AnalysisBroken("EGrid::getXYZ_layer(layer, box, bottom): %d definitions" % len(gxl))
+    gxl = gxl[0]
+    ln_, bn_ = gxl["params"][0]["n"], gxl["params"][2]["n"]
+
+    def leaf_lo(e):
+        e = strip(e)
+        t_ = show(e)
+        if t_ in ("this.nijk[0]", "nijk[0]"):
+            return sy.S("nx")
+        if t_ in ("this.nijk[1]", "nijk[1]"):
+            return sy.S("ny")
+        if e.get("k") == "Ref" and e.get("n") == ln_:
+            return sy.S("layer")
+        if e.get("k") == "Ref" and e.get("n") == bn_:
+            return sy.S("bottom")
+        return None
+    ev_lo = sy.Eval(leaf_lo, {"nodes_pr_surf", "zcorn_offset"})
+    top_lo = [st for st in stmt_list(gxl["body"])]
+    cut = next((i for i, st in enumerate(top_lo) if st["k"] in ("For", "ForRange", "While") or (st["k"] == "If" and "zcorn_offset" not in show(st) and i > 0 and any("zcorn_offset" in show(x) for x in top_lo[:i]) and "zcorn_array" in show(st))), len(top_lo))
+    env_lo = ev_lo.run([st for st in top_lo[:cut] if "zcorn_offset" in show(st) or "nodes_pr_surf" in show(st)], {})
+    got_lo = env_lo.get("zcorn_offset")
+    surf = sy.mul(sy.I(4), sy.S("nx"), sy.S("ny"))
+    top_t = sy.mul(sy.I(2), sy.S("layer"), surf)
+    want_lo = sy.cond(sy.S("bottom"), sy.add(top_t, surf), top_t)
+    chk.instance(r_lo, "offset", sample=dict(term=sy.show_term(got_lo)))
+    if got_lo != want_lo:
+        chk.violation(r_lo, "offset", "EGrid::getXYZ_layer starts reading ZCORN at %s; the node surface of a layer starts at %s" % (sy.show_term(got_lo), sy.show_term(want_lo)), gxl["file"], gxl["l"])
+
     # ---- C13.zsign: the orientation of ZCORN is decided the same way where it is checked and where it is repaired
     r_zs = chk.rule("C13.zsign", "ZcornMapper::validZCORN and ZcornMapper::fixupZCORN derive the direction in which depth grows with K from the same expression - the first node of the top layer against the matching bottom node of the last layer, a tie counting as 'increasing' (`<=`): with a strict `<` in one of them a grid whose first pillar is pinched out (zero total thickness, legal) is read as upside down, and the repair collapses every cell onto its top", floor=2)
     zsig = {}
